@@ -38,6 +38,7 @@ def shapes(tier):
         "two-indices": lambda: P(f(i, j, x) * g(j, y), (i, (1, 2)), (j, (R(-1, 2), R(1, 2)))),
         "singleton-pool": lambda: P(f(i, j, x), (i, (R(5, 2),)), (j, (1, 2))),
         "duplicate-pool": lambda: P(f(i, x) + x * i, (i, (1, 1, 2))),
+        "duplicate-second-pool": lambda: P(x * f(i, j) + g(j, y), (i, (1, 2)), (j, (R(-1, 2), R(-1, 2), R(1, 2)))),
         "symbolic-pool": lambda: P(f(i, x), (i, (a, b))),
         "unused-index": lambda: P(f(i, x), (i, (1, 2)), (j, (3, 4, 5))),
         "nested": lambda: P(g(i, y) * P(f(i, j, x), (j, (1, 2))), (i, (0, 1))),
